@@ -13,7 +13,8 @@ mkdir -p "$DST/demo"
 cp "$SRC/SEED/patch.diff" "$DST/patch.diff"
 cp "$SRC/SEED/meta.json" "$DST/agent-meta.json" 2>/dev/null
 # demonstration files = untracked files of the agent's worktree outside SEED/
-(cd "$SRC" && git status --porcelain --untracked-files=all | grep '^??' | cut -c4- | grep -v '^SEED/' ) > "$DST/demo/FILES.txt"
+# (files the patch itself creates are part of the change, not of the demonstration)
+(cd "$SRC" && git status --porcelain --untracked-files=all | grep '^??' | cut -c4- | grep -v '^SEED/' ) | while read -r f; do grep -q "^+++ b/$f\$" "$DST/patch.diff" || echo "$f"; done > "$DST/demo/FILES.txt"
 while read -r f; do mkdir -p "$DST/demo/$(dirname "$f")"; cp "$SRC/$f" "$DST/demo/$f"; done < "$DST/demo/FILES.txt"
 W=$(mktemp -d /tmp/confirm-XXXXXX); rmdir "$W"
 git -C /repo worktree add -q --detach "$W" HEAD || exit 3
